@@ -16,6 +16,15 @@ DAYS = ["mon", "Tue", "tues", "WED", "thursday", "Fri", "sat", "Sunday", "thu", 
 MONTHS = ["jan", "Feb", "march", "APR", "may", "June", "jul", "sept", "Sep", "december"]
 
 
+def body_lines(out):
+    """lines of the CLI output before the summary footer (`Matched: …`, `<bytes> B (…/s)` – the byte count may equal a key)"""
+    lines = out.decode("utf8", "replace").split("\n")
+    for i, l in enumerate(lines):
+        if l.startswith("Matched:"):
+            return lines[:i]
+    return lines
+
+
 def hexs(s):
     return s.encode().hex() if s else "-"
 
@@ -75,7 +84,7 @@ def run_extra(ctx):
                 rc, out, err = run(cmd, timeout=120)
                 runs += 1
                 got = []
-                text = out.decode("utf8", "replace").split("\n")
+                text = body_lines(out)
                 if sub == "table-cols":
                     got = [w for w in (text[0].split() if text else []) if w in keys]
                 else:
@@ -169,7 +178,7 @@ def run_dates(ctx, rnd, exe):
                 cmd += ["--workers", str(rnd.pick([1, 2, 4])), "--batch", str(rnd.pick([1, 2, 1000])), f]
                 rc, out, err = run(cmd, timeout=120, env=env)
                 runs += 1
-                text = out.decode("utf8", "replace").split("\n")
+                text = body_lines(out)
                 got = []
                 if sub == "table-cols":
                     got = [w for w in (text[0].split() if text else []) if w in keys]
@@ -229,7 +238,7 @@ def run_reduce(ctx, rnd, exe):
                     rc, out, err = run(cmd, timeout=120)
                     runs += 1
                     got = []
-                    for l in out.decode("utf8", "replace").split("\n")[1:]:
+                    for l in body_lines(out)[1:]:
                         w = l.split()
                         if len(w) == 2 and w[0] in groups:
                             got.append(w[0])
@@ -294,7 +303,7 @@ def run_axes(ctx, rnd, exe):
                    "--rows", "100", "--cols", "100", "--workers", str(rnd.pick([1, 2, 4])), "--batch", str(rnd.pick([1, 2, 1000])), f]
             rc, out, err = run(cmd, timeout=120)
             runs += 1
-            text = out.decode("utf8", "replace").split("\n")
+            text = body_lines(out)
             got_rows = [l.split()[0] for l in text[1:] if l.split() and l.split()[0] in rows and not l.startswith(" ")]
             ok = rc == 0 and got_rows == want["rows"]
             got_cols = None
